@@ -10,9 +10,11 @@ Notation length := (@List.length _) (only parsing).
 Definition row := list byte.
 
 Record cdata := { c_pre : list row; c_post : list row; c_valid : option (list bool) }.
-Record pdata := { p_port : N; p_leader : cdata; p_follower : option cdata }.
+(* character slots in port order, a port's leader before its follower (Ice Climbers only): the flattened
+   frames.ports[*].{leader, follower} *)
+Record slot := { sl_port : N; sl_fol : bool; sl_data : cdata }.
 Record frames := {
-  f_ids : list Z; f_ports : list pdata;
+  f_ids : list Z; f_chars : list slot;
   f_start : option (list row); f_end : option (list row);
   f_item_off : option (list Z); f_item : option (list row)
 }.
@@ -29,7 +31,6 @@ Record pstate := {
   ps_sizes : list (N * N);          (* payload sizes, most recent binding first *)
   ps_bytes_read : N;
   ps_split_raw : list byte; ps_split_actual : N;
-  ps_port_idx : list nat;
   ps_layout : layout;
   ps_start : start_t;
   ps_end : option end_t;
@@ -48,21 +49,13 @@ Definition empty_cdata : cdata := {| c_pre := []; c_post := []; c_valid := None 
 (* mutable::Frame::with_capacity *)
 Definition frames_new (v : version) (ports : list (N * bool)) : frames :=
   {| f_ids := [];
-     f_ports := map (fun p : N * bool => {| p_port := fst p; p_leader := empty_cdata;
-                                 p_follower := if snd p then Some empty_cdata else None |}) ports;
+     f_chars := flat_map (fun p : N * bool =>
+                            {| sl_port := fst p; sl_fol := false; sl_data := empty_cdata |}
+                            :: (if snd p then [{| sl_port := fst p; sl_fol := true; sl_data := empty_cdata |}] else [])) ports;
      f_start := if vgte v 2 2 then Some [] else None;
      f_end := if vgte v 3 0 then Some [] else None;
      f_item_off := if vgte v 3 0 then Some [0%Z] else None;
      f_item := if vgte v 3 0 then Some [] else None |}.
-
-(* parse_start's port_indexes: result[p.port] = i, default 0 *)
-Definition port_indexes (ports : list (N * bool)) : list nat :=
-  let fix go (i : nat) (ps : list (N * bool)) (acc : list nat) : list nat :=
-      match ps with
-      | [] => acc
-      | p :: r => go (S i) r (let k := N.to_nat (fst p) in firstn k acc ++ [i] ++ skipn (S k) acc)
-      end in
-  go O ports [0; 0; 0; 0]%nat.
 
 (* generated read_push on the payload after the event header: needs the record's row size, keeps exactly those bytes *)
 Definition read_push (n : nat) (payload : list byte) : outcome row :=
@@ -80,19 +73,18 @@ Definition pad_to (L : layout) (len : nat) (d : cdata) : cdata :=
 Definition frame_close_frames (L : layout) (fr : frames) : frames :=
   let len := length (f_ids fr) in
   {| f_ids := f_ids fr;
-     f_ports := map (fun p => {| p_port := p_port p; p_leader := pad_to L len (p_leader p);
-                                 p_follower := option_map (pad_to L len) (p_follower p) |}) (f_ports fr);
+     f_chars := map (fun c => {| sl_port := sl_port c; sl_fol := sl_fol c; sl_data := pad_to L len (sl_data c) |}) (f_chars fr);
      f_start := f_start fr; f_end := f_end fr; f_item_off := f_item_off fr; f_item := f_item fr |}.
 
 Definition set_frames (s : pstate) (fr : frames) : pstate :=
   {| ps_sizes := ps_sizes s; ps_bytes_read := ps_bytes_read s; ps_split_raw := ps_split_raw s;
-     ps_split_actual := ps_split_actual s; ps_port_idx := ps_port_idx s; ps_layout := ps_layout s; ps_start := ps_start s;
+     ps_split_actual := ps_split_actual s; ps_layout := ps_layout s; ps_start := ps_start s;
      ps_end := ps_end s; ps_frames := fr; ps_meta := ps_meta s; ps_gecko := ps_gecko s; ps_quirk := ps_quirk s |}.
 
 Definition frame_close (s : pstate) : pstate := set_frames s (frame_close_frames (ps_layout s) (ps_frames s)).
 
 Definition with_ids (fr : frames) (ids : list Z) : frames :=
-  {| f_ids := ids; f_ports := f_ports fr; f_start := f_start fr; f_end := f_end fr;
+  {| f_ids := ids; f_chars := f_chars fr; f_start := f_start fr; f_end := f_end fr;
      f_item_off := f_item_off fr; f_item := f_item fr |}.
 Definition frame_open (s : pstate) (id : Z) : pstate :=
   set_frames s (with_ids (ps_frames s) (f_ids (ps_frames s) ++ [id])).
@@ -112,26 +104,24 @@ Fixpoint upd_nth {A} (i : nat) (f : A -> A) (l : list A) : list A :=
   | x :: r, S j => x :: upd_nth j f r
   end.
 
-(* data_mut: the character's column set, or an error for an unoccupied port / follower on a non-ICs port *)
-Definition data_lookup (s : pstate) (port : N) (fol : bool) : outcome nat :=
-  match nth_error (ps_port_idx s) (N.to_nat port) with
-  | None => Err EInvalid
-  | Some i =>
-      match nth_error (f_ports (ps_frames s)) i with
-      | None => Err EInvalid
-      | Some p =>
-          if negb (N.eqb (p_port p) port) then Err EInvalid
-          else if fol then match p_follower p with Some _ => Ok i | None => Err EInvalid end
-          else Ok i
-      end
+(* data_mut: the character's column set, or an error for a port out of range or unoccupied, or a follower on a
+   non-Ice-Climbers port.  (The code goes through port_indexes[port] and checks ports[i].port == port and
+   follower.is_some(); with each port listed at most once that is: the slot tagged (port, follower) exists.) *)
+Fixpoint find_slot (cs : list slot) (port : N) (fol : bool) (i : nat) : option nat :=
+  match cs with
+  | [] => None
+  | c :: r => if N.eqb (sl_port c) port && Bool.eqb (sl_fol c) fol then Some i else find_slot r port fol (S i)
   end.
 
-Definition upd_char (fr : frames) (i : nat) (fol : bool) (f : cdata -> cdata) : frames :=
+Definition data_lookup (s : pstate) (port : N) (fol : bool) : outcome nat :=
+  match find_slot (f_chars (ps_frames s)) port fol O with
+  | Some i => Ok i
+  | None => Err EInvalid
+  end.
+
+Definition upd_char (fr : frames) (i : nat) (f : cdata -> cdata) : frames :=
   {| f_ids := f_ids fr;
-     f_ports := upd_nth i (fun p => if fol
-                                    then {| p_port := p_port p; p_leader := p_leader p; p_follower := option_map f (p_follower p) |}
-                                    else {| p_port := p_port p; p_leader := f (p_leader p); p_follower := p_follower p |})
-                        (f_ports fr);
+     f_chars := upd_nth i (fun c => {| sl_port := sl_port c; sl_fol := sl_fol c; sl_data := f (sl_data c) |}) (f_chars fr);
      f_start := f_start fr; f_end := f_end fr; f_item_off := f_item_off fr; f_item := f_item fr |}.
 
 Definition i32_at (buf : list byte) : outcome (Z * list byte) :=
@@ -142,22 +132,22 @@ Definition u8_hd (buf : list byte) : outcome (N * list byte) :=
 
 Definition set_end (s : pstate) (e : end_t) : pstate :=
   {| ps_sizes := ps_sizes s; ps_bytes_read := ps_bytes_read s; ps_split_raw := ps_split_raw s;
-     ps_split_actual := ps_split_actual s; ps_port_idx := ps_port_idx s; ps_layout := ps_layout s; ps_start := ps_start s;
+     ps_split_actual := ps_split_actual s; ps_layout := ps_layout s; ps_start := ps_start s;
      ps_end := Some e; ps_frames := ps_frames s; ps_meta := ps_meta s; ps_gecko := ps_gecko s; ps_quirk := ps_quirk s |}.
 
 Definition set_gecko (s : pstate) (g : gecko_t) : pstate :=
   {| ps_sizes := ps_sizes s; ps_bytes_read := ps_bytes_read s; ps_split_raw := ps_split_raw s;
-     ps_split_actual := ps_split_actual s; ps_port_idx := ps_port_idx s; ps_layout := ps_layout s; ps_start := ps_start s;
+     ps_split_actual := ps_split_actual s; ps_layout := ps_layout s; ps_start := ps_start s;
      ps_end := ps_end s; ps_frames := ps_frames s; ps_meta := ps_meta s; ps_gecko := Some g; ps_quirk := ps_quirk s |}.
 
 Definition set_split (s : pstate) (raw : list byte) (actual : N) : pstate :=
   {| ps_sizes := ps_sizes s; ps_bytes_read := ps_bytes_read s; ps_split_raw := raw;
-     ps_split_actual := actual; ps_port_idx := ps_port_idx s; ps_layout := ps_layout s; ps_start := ps_start s;
+     ps_split_actual := actual; ps_layout := ps_layout s; ps_start := ps_start s;
      ps_end := ps_end s; ps_frames := ps_frames s; ps_meta := ps_meta s; ps_gecko := ps_gecko s; ps_quirk := ps_quirk s |}.
 
 Definition add_bytes_read (s : pstate) (n : N) : pstate :=
   {| ps_sizes := ps_sizes s; ps_bytes_read := (ps_bytes_read s + n)%N; ps_split_raw := ps_split_raw s;
-     ps_split_actual := ps_split_actual s; ps_port_idx := ps_port_idx s; ps_layout := ps_layout s; ps_start := ps_start s;
+     ps_split_actual := ps_split_actual s; ps_layout := ps_layout s; ps_start := ps_start s;
      ps_end := ps_end s; ps_frames := ps_frames s; ps_meta := ps_meta s; ps_gecko := ps_gecko s; ps_quirk := ps_quirk s |}.
 
 (* results of game_end that the executable model cannot decide do not arise (no Shift-JIS there) *)
@@ -185,7 +175,7 @@ Definition handle_known (code : N) (buf : list byte) (s : pstate) : outcome psta
         let s2 := frame_open s1 id in
         rw <- read_push (sz_start (ps_layout s)) r ;;
         let fr := ps_frames s2 in
-        Ok (set_frames s2 {| f_ids := f_ids fr; f_ports := f_ports fr; f_start := Some (rows ++ [rw]);
+        Ok (set_frames s2 {| f_ids := f_ids fr; f_chars := f_chars fr; f_start := Some (rows ++ [rw]);
                              f_end := f_end fr; f_item_off := f_item_off fr; f_item := f_item fr |})
     end
   else if N.eqb code Event_FramePre then
@@ -200,7 +190,7 @@ Definition handle_known (code : N) (buf : list byte) (s : pstate) : outcome psta
              else (_ <- expect_id s id ;; Ok s)) ;;
     i <- data_lookup s1 port fol ;;
     rw <- read_push (sz_pre (ps_layout s)) r ;;
-    Ok (set_frames s1 (upd_char (ps_frames s1) i fol
+    Ok (set_frames s1 (upd_char (ps_frames s1) i
           (fun d => {| c_pre := c_pre d ++ [rw]; c_post := c_post d;
                        c_valid := option_map (fun b => b ++ [true]) (c_valid d) |})))
   else if N.eqb code Event_FramePost then
@@ -211,7 +201,7 @@ Definition handle_known (code : N) (buf : list byte) (s : pstate) : outcome psta
     _ <- expect_id s id ;;
     i <- data_lookup s port fol ;;
     rw <- read_push (sz_post (ps_layout s)) r ;;
-    Ok (set_frames s (upd_char (ps_frames s) i fol
+    Ok (set_frames s (upd_char (ps_frames s) i
           (fun d => {| c_pre := c_pre d; c_post := c_post d ++ [rw]; c_valid := c_valid d |})))
   else if N.eqb code Event_FrameEnd then
     '(id, r) <- i32_at buf ;;
@@ -220,7 +210,7 @@ Definition handle_known (code : N) (buf : list byte) (s : pstate) : outcome psta
     match f_end fr, f_item_off fr, f_item fr with
     | Some erows, Some offs, Some items =>
         rw <- read_push (sz_end (ps_layout s)) r ;;
-        let fr' := {| f_ids := f_ids fr; f_ports := f_ports fr; f_start := f_start fr;
+        let fr' := {| f_ids := f_ids fr; f_chars := f_chars fr; f_start := f_start fr;
                       f_end := Some (erows ++ [rw]);
                       f_item_off := Some (offs ++ [Z.of_nat (length items)]); f_item := f_item fr |} in
         Ok (frame_close (set_frames s fr'))
@@ -235,7 +225,7 @@ Definition handle_known (code : N) (buf : list byte) (s : pstate) : outcome psta
     | None => Err EInvalid
     | Some items =>
         rw <- read_push (sz_item (ps_layout s)) r ;;
-        Ok (set_frames s {| f_ids := f_ids fr; f_ports := f_ports fr; f_start := f_start fr; f_end := f_end fr;
+        Ok (set_frames s {| f_ids := f_ids fr; f_chars := f_chars fr; f_start := f_start fr; f_end := f_end fr;
                             f_item_off := f_item_off fr; f_item := Some (items ++ [rw]) |})
     end
   else Ok s.
